@@ -14,6 +14,7 @@ import (
 	"crypto/ecdsa"
 	"encoding/hex"
 	"fmt"
+	dto "github.com/prometheus/client_model/go"
 	"math/rand"
 	"os"
 	"path/filepath"
@@ -108,6 +109,22 @@ type pworld struct {
 	dist   map[string]int
 	nline  int
 	ctx    context.Context
+
+	// live mode: the processor is built by NewProcessor and its real Run loop is running; every event goes in through the
+	// channel Run selects on (see liveOp)
+	wantLive bool
+	live     bool
+	lockC    chan *common.MessagePublication
+	setC     chan *common.GuardianSet
+	injectC  chan *vaa.VAA
+	inC      chan *gossipv1.SignedVAAWithQuorum
+	tickC    chan time.Time
+	runDead  chan string
+	stopRun  func()
+	deadMsg  string
+	held     string
+
+	liveBroken bool
 }
 
 // psupCtx returns a context that belongs to a running supervisor (handleMessage/handleInjection call supervisor.Logger(ctx)).
@@ -166,7 +183,217 @@ func (w *pworld) reset(id string, our pkey) {
 		// with a miss notifier configured (no channels, never reaches Discord): handleCleanup's notification block runs
 		w.p.notifier = discord.NewVerifNotifier()
 	}
+	w.stopLive()
+	if w.wantLive && !w.liveBroken {
+		w.startLive(signer)
+	}
 	fmt.Fprintf(w.w, "reset %s our=%s govchain=%d govemitter=%s\n", id, hex.EncodeToString(our.addr.Bytes()), pgovChain, hex.EncodeToString(pgovEmitter[:]))
+}
+
+// ---------------------------------------------------------------- live mode (the real Run loop)
+
+// startLive replaces the hand-built Processor by one from the production constructor and starts its Run loop. The cleanup
+// ticker Run creates is replaced by a harness-owned one, so that ticks arrive when the scenario says so.
+func (w *pworld) startLive(signer *ecdsasigner.ECDSAPrivateKey) {
+	w.lockC = make(chan *common.MessagePublication)
+	w.setC = make(chan *common.GuardianSet)
+	w.injectC = make(chan *vaa.VAA)
+	w.inC = make(chan *gossipv1.SignedVAAWithQuorum)
+	w.tickC = make(chan time.Time)
+	w.runDead = make(chan string, 1)
+	w.deadMsg = ""
+	notifier := w.p.notifier
+	w.p = NewProcessor(w.ctx, w.db, w.lockC, w.setC, w.sendC, w.obsvC, w.reqC, w.injectC, w.inC, signer,
+		common.NewGuardianSetState(nil), reporter.EventListener(zap.NewNop()), notifier, pgovChain, pgovEmitter)
+	w.p.logger = zap.NewNop()
+	ctx, cancel := context.WithCancel(w.ctx)
+	done := make(chan struct{})
+	p := w.p
+	dead := w.runDead
+	go func() {
+		defer close(done)
+		defer func() {
+			if e := recover(); e != nil {
+				dead <- fmt.Sprint(e)
+			}
+		}()
+		_ = p.Run(ctx)
+	}()
+	w.stopRun = func() { cancel(); <-done }
+	w.live = true
+	// Run is inside its loop once it has taken a (no-op) event; then swap the ticker, and make sure the next select sees it
+	if !w.barrier() {
+		return
+	}
+	old := w.p.cleanup
+	w.p.cleanup = &time.Ticker{C: w.tickC}
+	if old != nil {
+		old.Stop()
+	}
+	w.barrier()
+}
+
+func (w *pworld) stopLive() {
+	if w.stopRun != nil {
+		w.stopRun()
+		w.stopRun = nil
+	}
+	w.live = false
+}
+
+// liveSend performs one channel send towards Run, giving up when Run has died (panic) or does not take the event.
+func (w *pworld) liveSend(send func(giveUp <-chan time.Time) bool) bool {
+	if w.deadMsg != "" {
+		return false
+	}
+	t := time.NewTimer(10 * time.Second)
+	defer t.Stop()
+	if send(t.C) {
+		return true
+	}
+	select {
+	case e := <-w.runDead:
+		w.deadMsg = e
+	default:
+		w.deadMsg = "Run stopped taking events"
+		w.liveBroken = true // one report is enough: the remaining scenarios run in direct mode instead of timing out one by one
+	}
+	return false
+}
+
+// barrier: an undecodable inbound VAA is a no-op for the processor (logged and dropped before any state is touched). Run takes
+// it only after the handler of the previous event has returned.
+func (w *pworld) barrier() bool {
+	return w.liveSend(func(giveUp <-chan time.Time) bool {
+		select {
+		case w.inC <- &gossipv1.SignedVAAWithQuorum{Vaa: []byte{0xff}}:
+			return true
+		case e := <-w.runDead:
+			w.runDead <- e
+			return false
+		case <-giveUp:
+			return false
+		}
+	})
+}
+
+// obsSeen reads the processor's own counter of observations that entered handleObservation (atomic, safe to read while Run works).
+func obsSeen() float64 {
+	var m dto.Metric
+	if err := observationsReceivedTotal.Write(&m); err != nil {
+		return -1
+	}
+	return m.GetCounter().GetValue()
+}
+
+// settle waits until Run has handled the event just sent and - for a local observation - the own observation that
+// broadcastSignature loops back from a goroutine of its own: first a barrier (the event's handler has returned), then as many
+// further observations entering handleObservation as signed observations were broadcast, then a barrier again (their
+// handlers have returned). Outputs drained on the way are kept in w.held.
+func (w *pworld) settle(before float64, local bool) bool {
+	if !w.barrier() {
+		return false
+	}
+	if local {
+		w.held = w.drain(false)
+		n := float64(strings.Count(w.held, "O:"))
+		deadline := time.Now().Add(20 * time.Second)
+		for obsSeen() < before+n {
+			if time.Now().After(deadline) {
+				w.deadMsg = "own observation not looped back"
+				return false
+			}
+			select {
+			case e := <-w.runDead:
+				w.deadMsg = e
+				return false
+			default:
+			}
+			time.Sleep(20 * time.Microsecond)
+		}
+	}
+	return w.barrier()
+}
+
+func (w *pworld) panicLine(op, fields string) bool {
+	site := strings.Map(func(r rune) rune {
+		if r == ' ' || r == '\n' || r == '\t' {
+			return '_'
+		}
+		return r
+	}, w.deadMsg)
+	if len(site) > 80 {
+		site = site[:80]
+	}
+	fmt.Fprintf(w.w, "%s %s now=%d %s res=panic site=%s\n", op, w.caseID, w.now, fields, site)
+	return false
+}
+
+// liveOp delivers one event through the channel Run selects on. A local observation (msg / inj) loops the node's own
+// observation back into the observation channel, and Run handles that next: such an event therefore yields two lines - the
+// event itself with the signed observation it broadcast (state not observable at that instant: st=? db=?), then the own
+// observation as handled by Run, with everything it caused and the state after both.
+func (w *pworld) liveOp(op, fields string, send func(giveUp <-chan time.Time) bool, local bool, digest []byte) bool {
+	w.nline++
+	w.dist[op+"-live"]++
+	w.held = ""
+	before := obsSeen()
+	if !w.liveSend(send) || !w.settle(before, local) {
+		return w.panicLine(op, fields)
+	}
+	out := w.drain(false)
+	if op == "set" && w.p.gst.Get() != w.p.gs {
+		// Run's set arm also publishes the set to the shared GuardianSetState (read by p2p and the admin service)
+		if out == "-" {
+			out = "X:shared-guardian-set-state-not-updated"
+		} else {
+			out += "|X:shared-guardian-set-state-not-updated"
+		}
+	}
+	if w.held != "" && w.held != "-" {
+		if out == "-" {
+			out = w.held
+		} else {
+			all := append(strings.Split(w.held, "|"), strings.Split(out, "|")...)
+			sort.Strings(all)
+			out = strings.Join(all, "|")
+		}
+	}
+	if !local || !strings.Contains(out, "O:") {
+		st, dbs := w.summary()
+		fmt.Fprintf(w.w, "%s %s now=%d %s res=ok out=%s st=%s db=%s\n", op, w.caseID, w.now, fields, out, st, dbs)
+		return true
+	}
+	var first, rest []string
+	var own []string
+	for _, o := range strings.Split(out, "|") {
+		if strings.HasPrefix(o, "O:") && own == nil {
+			own = strings.Split(o, ":")
+			first = append(first, o, "L:"+o[2:])
+		} else {
+			rest = append(rest, o)
+		}
+	}
+	sort.Strings(first)
+	fmt.Fprintf(w.w, "%s %s now=%d %s res=ok out=%s st=? db=?\n", op, w.caseID, w.now, fields, strings.Join(first, "|"))
+	r := "-"
+	if len(rest) > 0 {
+		sort.Strings(rest)
+		r = strings.Join(rest, "|")
+	}
+	st, dbs := w.summary()
+	w.nline++
+	w.dist["obs-live-loopback"]++
+	unhex := func(x string) []byte {
+		if x == "-" {
+			return nil
+		}
+		b, _ := hex.DecodeString(x)
+		return b
+	}
+	fmt.Fprintf(w.w, "obs %s now=%d addr=%s hash=%s sig=%s tx=%s rec=%s res=ok out=%s st=%s db=%s\n", w.caseID, w.now,
+		own[1], own[2], own[3], own[4], precover(unhex(own[2]), unhex(own[3])), r, st, dbs)
+	return true
 }
 
 // advance simulated time: shift every recorded instant backwards.
@@ -343,10 +570,22 @@ func (w *pworld) setUpdate(gs *common.GuardianSet) bool {
 	if kf == "" {
 		kf = "-"
 	}
-	ok := w.emit("set", fmt.Sprintf("index=%d keys=%s", gs.Index, kf), func() {
-		w.p.gs = gs
-		w.p.gst.Set(gs)
-	}, false)
+	var ok bool
+	if w.live {
+		ok = w.liveOp("set", fmt.Sprintf("index=%d keys=%s", gs.Index, kf), func(giveUp <-chan time.Time) bool {
+			select {
+			case w.setC <- gs:
+				return true
+			case <-giveUp:
+				return false
+			}
+		}, false, nil)
+	} else {
+		ok = w.emit("set", fmt.Sprintf("index=%d keys=%s", gs.Index, kf), func() {
+			w.p.gs = gs
+			w.p.gst.Set(gs)
+		}, false)
+	}
 	w.prev = w.gs
 	w.gs = gs
 	return ok
@@ -376,6 +615,16 @@ func (w *pworld) message(k *common.MessagePublication) bool {
 	fields := fmt.Sprintf("tx=%s sec=%d nsec=%d nonce=%d seq=%d cl=%d ec=%d tc=%d em=%s pl=%s dig=%s sig=%s srec=%s",
 		phex(k.TxHash.Bytes()), k.Timestamp.Unix(), k.Timestamp.Nanosecond(), k.Nonce, k.Sequence, k.ConsistencyLevel,
 		uint16(k.EmitterChain), uint16(k.TargetChain), hex.EncodeToString(k.EmitterAddress[:]), phex(k.Payload), phex(digest), phex(oursig), precover(digest, oursig))
+	if w.live {
+		return w.liveOp("msg", fields, func(giveUp <-chan time.Time) bool {
+			select {
+			case w.lockC <- k:
+				return true
+			case <-giveUp:
+				return false
+			}
+		}, true, digest)
+	}
 	return w.emit("msg", fields, func() { w.p.handleMessage(w.ctx, k) }, true)
 }
 
@@ -384,11 +633,31 @@ func (w *pworld) injection(v *vaa.VAA) bool {
 	digest := v.SigningMsg().Bytes()
 	oursig := psign(w.our, digest)
 	fields := fmt.Sprintf("v=%s dig=%s sig=%s srec=%s", pcanon(v), phex(digest), phex(oursig), precover(digest, oursig))
+	if w.live {
+		return w.liveOp("inj", fields, func(giveUp <-chan time.Time) bool {
+			select {
+			case w.injectC <- v:
+				return true
+			case <-giveUp:
+				return false
+			}
+		}, true, digest)
+	}
 	return w.emit("inj", fields, func() { w.p.handleInjection(w.ctx, v) }, true)
 }
 
 func (w *pworld) observation(o *gossipv1.SignedObservation) bool {
 	fields := fmt.Sprintf("addr=%s hash=%s sig=%s tx=%s rec=%s", phex(o.Addr), phex(o.Hash), phex(o.Signature), phex(o.TxHash), precover(o.Hash, o.Signature))
+	if w.live {
+		return w.liveOp("obs", fields, func(giveUp <-chan time.Time) bool {
+			select {
+			case w.obsvC <- o:
+				return true
+			case <-giveUp:
+				return false
+			}
+		}, false, nil)
+	}
 	return w.emit("obs", fields, func() { w.p.handleObservation(w.ctx, o) }, false)
 }
 
@@ -412,6 +681,16 @@ func (w *pworld) inbound(b []byte) bool {
 		}
 		fields += fmt.Sprintf(" dig=%s rec=%s", phex(d), rec)
 	}
+	if w.live {
+		return w.liveOp("inb", fields, func(giveUp <-chan time.Time) bool {
+			select {
+			case w.inC <- &gossipv1.SignedVAAWithQuorum{Vaa: b}:
+				return true
+			case <-giveUp:
+				return false
+			}
+		}, false, nil)
+	}
 	return w.emit("inb", fields, func() {
 		w.p.handleInboundSignedVAAWithQuorum(w.ctx, &gossipv1.SignedVAAWithQuorum{Vaa: b})
 	}, false)
@@ -428,10 +707,26 @@ func (w *pworld) cleanup(room int) bool {
 		w.reqC <- nil
 	}
 	var reqs string
-	ok := w.emit("clean", fmt.Sprintf("room=%d", room), func() {
-		w.p.handleCleanup(w.ctx)
-		reqs = w.drainReq()
-	}, false)
+	var ok bool
+	if w.live {
+		// the request queue has to be read before the line is written; liveOp writes the line, so wrap the tick here
+		ok = w.liveOp("clean", fmt.Sprintf("room=%d", room), func(giveUp <-chan time.Time) bool {
+			select {
+			case w.tickC <- time.Now():
+				return true
+			case <-giveUp:
+				return false
+			}
+		}, false, nil)
+		if ok {
+			reqs = w.drainReq()
+		}
+	} else {
+		ok = w.emit("clean", fmt.Sprintf("room=%d", room), func() {
+			w.p.handleCleanup(w.ctx)
+			reqs = w.drainReq()
+		}, false)
+	}
 	if ok && reqs != "" {
 		// the request outputs are appended as their own line so that `emit`'s format stays uniform
 		fmt.Fprintf(w.w, "reqs %s %s\n", w.caseID, reqs)
@@ -1251,8 +1546,12 @@ func TestVerifProcessor(t *testing.T) {
 		nscen, _ = strconv.Atoi(s)
 	}
 	for i := 0; i < nscen; i++ {
+		// every fifth scenario runs against the real Run loop of a Processor built by NewProcessor
+		w.wantLive = i%5 == 4
 		w.scenario(fmt.Sprintf("s%d", i), thorough)
 	}
+	w.wantLive = false
+	defer w.stopLive()
 	nperm := 2
 	if thorough {
 		nperm = 8
